@@ -3,7 +3,6 @@
 //! Units are sharded over worker subprocesses by a stride over their outermost enumeration.
 
 use crate::e1::{self, Acc, Job};
-use crate::interp::*;
 use cvm::ast::{Tok, G};
 use cvm::sem::{Probes, Sw};
 use serde_json::{json, Value};
@@ -166,19 +165,12 @@ pub struct ShardCtx<'c> {
     pub progress: &'c dyn Fn(usize),
 }
 
-fn dispatch_cfg_str(job: &Job, mb: bool, cfg: CfgId, acc: &mut Acc) {
-    match cfg {
-        CfgId::Empty => e1::run_str::<CEmpty>(job, mb, acc),
-        CfgId::Cheap => e1::run_str::<CCheap>(job, mb, acc),
-        CfgId::Simple => e1::run_str::<CSimple>(job, mb, acc),
-        CfgId::Rich => e1::run_str::<CRich>(job, mb, acc),
-        CfgId::RichSt => e1::run_str::<CRichSt>(job, mb, acc),
-        CfgId::RichCx => e1::run_str::<CRichCx>(job, mb, acc),
-    }
-}
-
-fn unsupported_combo(k: KindId, c: CfgId) -> ! {
-    panic!("harness: (kind {:?}, cfg {:?}) is not instantiated", k, c)
+/// Monomorphised E1 runners live in the `inst/i*` crates (compiled in parallel); the binary
+/// registers them here.  A runner returns false when the (kind, cfg) pair is not one of its own.
+pub type E1Runner = fn(KindId, CfgId, &Job, &mut Acc) -> bool;
+static RUNNERS: std::sync::OnceLock<Vec<E1Runner>> = std::sync::OnceLock::new();
+pub fn register_runners(v: Vec<E1Runner>) {
+    let _ = RUNNERS.set(v);
 }
 
 pub fn run_e1_unit(u: &E1Unit, cx: &ShardCtx) -> UnitResult {
@@ -207,22 +199,9 @@ pub fn run_e1_unit_on(u: &E1Unit, cx: &ShardCtx, inputs: Option<Vec<Vec<Tok>>>) 
         stride: cx.nshards,
         skip: &skip,
     };
-    match (u.kind, u.cfg) {
-        (KindId::Str, c) => dispatch_cfg_str(&job, false, c, &mut acc),
-        (KindId::StrMb, c) => dispatch_cfg_str(&job, true, c, &mut acc),
-        (KindId::Slice, CfgId::Rich) => e1::run_slice::<CRich>(&job, &mut acc),
-        (KindId::Slice, CfgId::RichSt) => e1::run_slice::<CRichSt>(&job, &mut acc),
-        (KindId::Stream, CfgId::Rich) => e1::run_stream::<CRich>(&job, &mut acc),
-        (KindId::Stream, CfgId::RichSt) => e1::run_stream::<CRichSt>(&job, &mut acc),
-        (KindId::BoxedStream, CfgId::Rich) => e1::run_boxed_stream::<CRich>(&job, &mut acc),
-        (KindId::Mapped, CfgId::Rich) => e1::run_mapped::<CRich>(&job, false, &mut acc),
-        (KindId::MappedGapped, CfgId::Rich) => e1::run_mapped::<CRich>(&job, true, &mut acc),
-        (KindId::U8, CfgId::Rich) => e1::run_u8::<CRich>(&job, &mut acc),
-        (KindId::Io, CfgId::Rich) => e1::run_io::<CRich>(&job, &mut acc),
-        (KindId::WithContext, CfgId::Rich) => e1::run_with_context::<CRich>(&job, false, &mut acc),
-        (KindId::WithContextMb, CfgId::Rich) => e1::run_with_context::<CRich>(&job, true, &mut acc),
-        (KindId::MapSpan, CfgId::Rich) => e1::run_map_span::<CRich>(&job, &mut acc),
-        (k, c) => unsupported_combo(k, c),
+    let handled = RUNNERS.get().map(|rs| rs.iter().any(|r| r(u.kind, u.cfg, &job, &mut acc))).unwrap_or(false);
+    if !handled {
+        panic!("harness: (kind {:?}, cfg {:?}) is not instantiated by any inst crate", u.kind, u.cfg);
     }
     let mut counters = BTreeMap::new();
     counters.insert("accepted".into(), acc.accepted);
